@@ -45,3 +45,4 @@ fn c18_sep() {
     kani::cover!(idx == Some(2), "W:sep.found_at_2");
     kani::cover!(idx.is_none() && l == 3 && b[2] == b',', "W:sep.escaped_separator");
 }
+
